@@ -11,12 +11,12 @@ CHECKS = {
    technique=TECH+"snapshot save through a fault-injecting recorder and reload into seeded dirty receivers, twin-machine continuation",
    ref="5 (C13)"),
  "C14": dict(
-   text="Seeded machine states encoded by independent SNA / SZX / SCR writers (chunk order permuted, pages stored or zlib-compressed, unknown chunks, optional AY/KEYB/AMXM/CRTR chunks) are loaded through chunking assets into seeded dirty receivers (halted, mid prefix chain, EI pending, paging locked on another bank, other border/IM/IFF, after a program ran, AY programmed, stopped by a breakpoint in the middle of a frame) and into a fresh one: field-by-field state comparison, display vs RefScreen, identical continuation of dirty and fresh receiver, AY read-back and PCM against a twin programmed through the ports, joystick/mouse presence, SZX HALTED/EILAST behaviour, identical continuation of SNA / stored-SZX / zlib-SZX encodings of one state, and the model-mismatch matrix (Err or correct layout, never a panic). The load at an arbitrary instant into an arbitrary receiver is this technique's crash/restart analogue: only what the file carries survives. Sampling, not proof.",
+   text="Seeded machine states encoded by independent SNA / SZX / SCR writers (chunk order permuted, pages stored or zlib-compressed, unknown chunks, optional AY/KEYB/AMXM/CRTR chunks) are loaded through chunking assets into seeded dirty receivers (halted, mid prefix chain, EI pending, paging locked on another bank, other border/IM/IFF, after a program ran, AY programmed, stopped by a breakpoint in the middle of a frame) and into a fresh one: field-by-field state comparison, display vs RefScreen, identical continuation of dirty and fresh receiver, AY read-back and PCM against a twin programmed through the ports, joystick/mouse presence, SZX HALTED/EILAST behaviour, identical continuation of SNA / stored-SZX / zlib-SZX encodings of one state, and the model-mismatch matrix (Err or correct layout, never a panic). The load at an arbitrary instant into an arbitrary receiver is this technique's crash/restart analogue: only what the file carries survives. Sampling, not proof. Receivers may have AY sound disabled in the settings; the same file may be loaded twice in a row.",
    note="Writers follow the public format documents (DESIGN appendix E); what a format cannot carry is equalised before continuation; SZX HALTED accepted under either PC convention; AY PCM compared bit-exactly for fresh receivers only; SCR with the shadow screen displayed not asserted.",
    technique=TECH+"snapshot load injected at seeded instants into seeded dirty receivers; twin-machine continuation and reference-state comparison",
    ref="5 (C14)", cat="exploration"),
  "C15": dict(
-   text="Fault enumeration: for a corpus file of each format (SNA, SZX, SCR, TAP, ROM, gzip, VTX; from independent writers and the repository) the load is repeated with a read error and with a seek error at every asset call index, with short reads, both EOF styles and truncation at structural prefixes. Plus seeded structure-aware mutations (length/size/count fields, non-UTF-8 ids, out-of-range IM/border/page values, duplicated/shortened chunks, oversize) and random byte strings up to 160 KiB. Oracles: no panic and no arithmetic overflow (harness built with overflow checks), asset-call budget (deterministic hang detector), single-allocation bound, and the machine still emulates frames afterwards.",
+   text="Fault enumeration: for a corpus file of each format (SNA, SZX, SCR, TAP, ROM, gzip, VTX; from independent writers and the repository) the load is repeated with a read error and with a seek error at every asset call index, with short reads, both EOF styles and truncation at structural prefixes. Plus seeded structure-aware mutations (length/size/count fields, non-UTF-8 ids, out-of-range IM/border/page values, duplicated/shortened chunks, oversize) and random byte strings up to 160 KiB. Oracles: no panic and no arithmetic overflow (harness built with overflow checks), asset-call budget (deterministic hang detector), single-allocation bound, and the machine still emulates frames afterwards. Structure-aware mutations include re-spelled chunk ids with shortened bodies, 16-bit register fields at the extremes and RAM page chunks re-encoded with the wrong amount of data.",
    note="Enumeration is over fault positions of one load, not over all inputs; mutations and random strings are sampled. Allocation failure itself cannot be injected in-process (it aborts); the bound on the largest single request stands in for it. One known finding: a panic inside the third-party delharc LH5 decoder.",
    technique=TECH+"enumeration of asset failure positions plus seeded structure-aware corruption of the real loaders' inputs",
    ref="5 (C15)", cat="fault_enumeration"),
@@ -31,7 +31,7 @@ CHECKS = {
    technique=TECH+"seeded call/buffer-size schedules on the real player with a recording backend seam; stream identity across chunkings",
    ref="5 (C20)"),
  "C10": dict(
-   text="Seeded TAP images (0-6 blocks, boundary lengths around the 128-byte buffer, right/wrong checksums, chunked asset) and request sequences (A, LOAD/VERIFY, IX anywhere incl. ROM and wrap, DE incl. 0 and D=0xFF) issued as direct calls of the ROM routine with fast loading on, on both machines (128K: the 48K BASIC ROM paged in through a seeded paging history - any bank at 0xC000, via ROM 0, locked, locked followed by ignored writes, paging writes between requests); memory, IX, DE and carry compared with RefLdBytes (byte-level model of the ROM code); requests past the end of the tape must not return and must leave the machine bit-identical to a twin with no tape inserted. Sampling, not proof.",
+   text="Seeded TAP images (0-6 blocks, boundary lengths around the 128-byte buffer, right/wrong checksums, chunked asset) and request sequences (A, LOAD/VERIFY, IX anywhere incl. ROM and wrap, DE incl. 0 and D=0xFF) issued as direct calls of the ROM routine with fast loading on, on both machines (128K: the 48K BASIC ROM paged in through a seeded paging history - any bank at 0xC000, via ROM 0, locked, locked followed by ignored writes, paging writes between requests); memory, IX, DE and carry compared with RefLdBytes (byte-level model of the ROM code); requests past the end of the tape must not return and must leave the machine bit-identical to a twin with no tape inserted. Sampling, not proof. The host may rewind the deck between requests (also after the end of the tape was hit); the fast-load setting may be applied through the setter.",
    note="RefLdBytes is cross-validated against the real ROM loader running in real time by C11's system runs; the ROM's own stack traffic (also where it is visible through a second window onto the same bank) and (when its frame interrupt ran before returning) system variables are masked; banks mapped nowhere must stay untouched.",
    technique=TECH+"seeded tape images and request histories on the real machine against a reference loader model and a no-tape twin machine",
    ref="5 (C10)"),
@@ -41,27 +41,27 @@ CHECKS = {
    technique=TECH+"seeded time partitions on the real tape state machine against a reference waveform; twin-machine differential (fast load vs real-time ROM loader)",
    ref="5 (C11)"),
  "C19": dict(
-   text="Seeded speaker/MIC toggle schedules (observed by single-stepping), SZX snapshot loads between frames that carry their own speaker/MIC levels, under seeded sample rates (8-384 kHz), volumes, device enables and host drain policies (always / every j-th frame / never, multi-frame host calls): exactly floor(rate/50) samples per drained frame, every sample equals a beeper level in force within one sample of its frame time, all samples finite and within the volume bound (also with a randomly programmed AY), queue below two frames' worth when not drained. Sampling, not proof.",
+   text="Seeded speaker/MIC toggle schedules (observed by single-stepping), SZX snapshot loads between frames that carry their own speaker/MIC levels, under seeded sample rates (8-384 kHz), volumes, device enables and host drain policies (always / every j-th frame / never, multi-frame host calls): exactly floor(rate/50) samples per drained frame, every sample equals a beeper level in force within one sample of its frame time, all samples finite and within the volume bound (also with a randomly programmed AY), queue below two frames' worth when not drained. Sampling, not proof. The host may switch AY sound through set_ay_enabled between frames; the speaker level in force must survive.",
    note="Beeper factors (0.5 speaker, 0.1 MIC, volume/200) are taken from the mixer's documented constants; the per-sample clause is checked with the AY disabled; AY signal content is C18's.",
    technique=TECH+"seeded port-write times, sample rates and host drain schedules on the real machine, PCM checked against a reference level time line",
    ref="5 (C19)"),
  "C08": dict(
-   text="Seeded screen contents written through every path the property lists (CPU LDIR via 0x4000 and via 0xC000 with bank 5/7 paged, CPU 16-bit stores and pushes at seeded offsets, pokes, SCR / SNA / SZX load with chunked assets, tape fast-load of the whole screen and of partial blocks through either window, raw bus writes), 128K screen-select toggles, then quiet frames compared pixel-exact with RefScreen; FLASH polarity run-lengths over 50+ frames; single writes (CPU, poke or bus while stopped mid-frame) at a seeded T at least two lines before/after the beam position must appear in the current/next frame, also with a 128K paging write that leaves the displayed screen alone in the same frame. Sampling, not proof.",
+   text="Seeded screen contents written through every path the property lists (CPU LDIR via 0x4000 and via 0xC000 with bank 5/7 paged, CPU 16-bit stores and pushes at seeded offsets, pokes, SCR / SNA / SZX load with chunked assets, tape fast-load of the whole screen and of partial blocks through either window, raw bus writes), 128K screen-select toggles, then quiet frames compared pixel-exact with RefScreen; FLASH polarity run-lengths over 50+ frames; single writes (CPU, poke or bus while stopped mid-frame) at a seeded T at least two lines before/after the beam position must appear in the current/next frame, also with a 128K paging write that leaves the displayed screen alone in the same frame. Sampling, not proof. Host actions before the quiet frames: save_snapshot with SP inside the display file; screen select written together with the lock bit.",
    note="Oracle input is the actual content of the displayed RAM bank (hook); loader correctness is C14's; flash phase origin is not assumed.",
    technique=TECH+"seeded write paths and write times relative to the simulated beam, frame buffers checked against a reference decode",
    ref="5 (C08)"),
  "C09": dict(
-   text="Seeded schedules of OUTs to even ports over several frames (several per line, in retrace, in the first/last border lines, straddling the frame end, frames with no write, border set by a loaded SNA or SZX snapshot at the start or between frames, SZX files with arbitrary low bits in their last-OUT field); write instants are observed by single-stepping and every completed border buffer is compared pixel by pixel with the reference time line within the property's 16-pixel tolerance. Sampling, not proof.",
+   text="Seeded schedules of OUTs to even ports over several frames (several per line, in retrace, in the first/last border lines, straddling the frame end, frames with no write, border set by a loaded SNA or SZX snapshot at the start or between frames, SZX files with arbitrary low bits in their last-OUT field); write instants are observed by single-stepping and every completed border buffer is compared pixel by pixel with the reference time line within the property's 16-pixel tolerance. Sampling, not proof. Every fourth run the writes are made by a free-running program (instants from RefZ80 on RefMem+RefULA) while the host asks for several frames per call; the frame presented after each call is compared.",
    note="Pixels whose beam time lies within 8 T of the span [start of port cycle, end of OUT] may show either colour; power-on state before any write is outside the statement.",
    technique=TECH+"seeded port-write times on the simulated frame clock, border frame buffer checked against a reference beam time line",
    ref="5 (C09)"),
  "C07": dict(
-   text="Seeded device configurations (machine, Kempston joystick, mouse, I/O extender with a seeded claimed set, held keys, AY contents), then stratified port accesses interleaved with host actions (extender installed late, replaced, or changing its claims for the port just accessed; snapshot of the running machine loaded and the previous ULA value written again) (IN and OUT executed by the emulated CPU) at seeded beam positions; a strict partial-decode model says which single device is selected, its effect/value is asserted and every other device's canary (border, paging latch + bank marker, AY read-back, extender log) must be unchanged; unclaimed reads must return the floating bus - exact ULA fetch schedule (display byte, attribute, +1, +1, four idle T-states per 8-T group) when nothing delays the port cycle, a position-specific tolerant set otherwise; with a pilot tone playing bit 6 of every ULA read (any even address) must agree with an immediate read of an unclaimed canonical port. Sampling, not proof; the decode clause is static, only the floating-bus clause depends on simulated time.",
+   text="Seeded device configurations (machine, Kempston joystick, mouse, I/O extender with a seeded claimed set, held keys, AY contents), then stratified port accesses interleaved with host actions (extender installed late, replaced, or changing its claims for the port just accessed; snapshot of the running machine loaded and the previous ULA value written again) (IN and OUT executed by the emulated CPU) at seeded beam positions; a strict partial-decode model says which single device is selected, its effect/value is asserted and every other device's canary (border, paging latch + bank marker, AY read-back, extender log) must be unchanged; unclaimed reads must return the floating bus - exact ULA fetch schedule (display byte, attribute, +1, +1, four idle T-states per 8-T group) when nothing delays the port cycle, a position-specific tolerant set otherwise; with a pilot tone playing bit 6 of every ULA read (any even address) must agree with an immediate read of an unclaimed canonical port. Sampling, not proof; the decode clause is static, only the floating-bus clause depends on simulated time. AY sound may be disabled in the settings or toggled through the setter (the chip stays on the bus); a port claimed by the extender must reach no built-in device.",
    note="Multi-device addresses and addresses the strict reading leaves open are don't-care (counted); floating-bus values inside the window are checked against a position-specific set (+-4 columns), so a wrong byte passes with ~13% probability per sample; EAR asserted low with no tape.",
    technique=TECH+"seeded configuration / port / beam-position sampling on the real machine against a strict decode model with canaries on all non-selected devices",
    ref="5 (C07)"),
  "C04": dict(
-   text="Whole-machine simulation at three levels: single bus operations on the real ZXController; stratified instructions single-stepped through the public API; and (every sixth run) a lock-step of thousands of instructions of seeded random code against RefZ80 running on RefMem + RefULA with no re-synchronisation, the cumulative emulated time compared after every instruction (state that only goes wrong over a history - a stale cache, a latch following an ignored write). The first two run each from a seeded start T (uniform and biased to the edges of the contention window / frame) with code, operands, stack, I register and port address placed in contended or uncontended memory under seeded 128K paging; observed durations are compared with RefULA applied to RefZ80's cycle script. Sampling, not proof.",
+   text="Whole-machine simulation at three levels: single bus operations on the real ZXController; stratified instructions single-stepped through the public API; and (every sixth run) a lock-step of thousands of instructions of seeded random code against RefZ80 running on RefMem + RefULA with no re-synchronisation, the cumulative emulated time compared after every instruction (state that only goes wrong over a history - a stale cache, a latch following an ignored write). The first two run each from a seeded start T (uniform and biased to the edges of the contention window / frame) with code, operands, stack, I register and port address placed in contended or uncontended memory under seeded 128K paging; observed durations are compared with RefULA applied to RefZ80's cycle script. Sampling, not proof. Round-3 additions: ports claimed by a host I/O extender are timed like any other port; 16-bit accesses with the word on a window border.",
    note="In the lock-step a clock difference at a frame crossing or interrupt entry is left to C05 and a register difference to C01/C06 (the pair is re-synchronised). Truth is RefULA (constants of the property text) + RefZ80 cycle scripts; the reference is re-synchronised from the machine's own registers and memory before every instruction (attribution: value bugs are C01's); even ports matching the paging decode are don't-care.",
    technique=TECH+"seeded start-time / placement / paging schedules on the real machine, durations checked against a reference contention model",
    ref="5 (C04)"),
@@ -71,17 +71,17 @@ CHECKS = {
    technique=TECH+"seeded input-event histories on the real machine, read back through the emulated CPU, against a reference set model",
    ref="5 (C17)"),
  "C05": dict(
-   text="Whole-machine simulation: constant-time programs (DI busy loop, EI busy loop with a 39-T IM-2 handler, EI;HALT idle loop, DI;HALT entered at a T-state that is not a multiple of 4) run for K frames under a seeded host driving schedule (FrameCount(n), Max mode stopped by scripted stopwatch readings, breakpoint stops) with an exact T-state conservation equation and interrupt counter, plus INT-window and frame-end single-step probes on both machines, and a whole-machine lock-step of seeded random code (any instruction, contended or not, crossing the frame end or being interrupted) against RefZ80 on RefMem + RefULA with no re-synchronisation: frames completed and in-frame clock must equal the reference after every instruction. Sampling, not proof.",
+   text="Whole-machine simulation: constant-time programs (DI busy loop, EI busy loop with a 39-T IM-2 handler, EI;HALT idle loop, DI;HALT entered at a T-state that is not a multiple of 4) run for K frames under a seeded host driving schedule (FrameCount(n), Max mode stopped by scripted stopwatch readings, breakpoint stops) with an exact T-state conservation equation and interrupt counter, plus INT-window and frame-end single-step probes on both machines, and a whole-machine lock-step of seeded random code (any instruction, contended or not, crossing the frame end or being interrupted) against RefZ80 on RefMem + RefULA with no re-synchronisation: frames completed and in-frame clock must equal the reference after every instruction. Sampling, not proof. An unreadable tape may be started mid-run: emulate_frames returns an error in the middle of a frame, the host stops the deck and carries on, and the conservation equation must still hold; sound/device settings are seeded.",
    note="The constant-time programs run in uncontended RAM so instruction times are the documented ones (C03); the lock-step relies on RefULA/RefZ80 for instruction times and judges only frame crossings, interrupt entries and the frame count (differences inside a frame are C04's); uses hooks verif_frame_clocks/verif_set_frame_clocks.",
    technique=TECH+"seeded host-call schedules and scripted stopwatch on the real emulator, exact T-state accounting",
    ref="5 (C05)"),
  "C06": dict(
-   text="Seeded histories of paging-port writes (all values, lock early/late/never, decoy ports), CPU reads/writes, single arbitrary instructions whose multi-byte accesses straddle the 16 KiB window borders (16-bit loads/stores, stack traffic, block transfers, IM 2 vector fetch; model RefZ80 on RefMem), host load_rom in the middle of the history, and sweeps on the real machine, checked operation by operation against RefMem (8 banks + ROMs + latch), with embedded and host-supplied (chunked asset) ROM sets. Sampling, not proof.",
+   text="Seeded histories of paging-port writes (all values, lock early/late/never, decoy ports), CPU reads/writes, single arbitrary instructions whose multi-byte accesses straddle the 16 KiB window borders (16-bit loads/stores, stack traffic, block transfers, IM 2 vector fetch; model RefZ80 on RefMem), host load_rom in the middle of the history, and sweeps on the real machine, checked operation by operation against RefMem (8 banks + ROMs + latch), with embedded and host-supplied (chunked asset) ROM sets. Sampling, not proof. SNA / SZX snapshots of the current state are loaded in the middle of the history.",
    note="Trusts RefMem (zxref::mem) and, for the instruction-level operation, RefZ80 (a difference is re-run on the bare CPU over a flat copy of the visible memory so that a CPU bug is not reported as a memory-map bug); paging writes use odd ports with A15=0, A1=0, A5-A7=1 so that no other device is selected (port decode itself is C07).",
    technique=TECH+"seeded operation histories on the real machine checked against a reference memory model",
    ref="5 (C06)"),
  "C16": dict(
-   text="The property this technique is made for: one scenario (machine, content, frame-keyed input script) is executed under several host drivings - call slicing, Max mode with arbitrary scripted stopwatch readings, breakpoint stops and resumes, sound off, drain always/sometimes/never, five asset implementations (BufferCursor, chunking asset, GzipAsset, real FileAsset, 1-byte reads) - and the hash of all CPU state, RAM, paging, clock, both frame buffers (and PCM for draining drivings) must be identical at every compared frame boundary. The system is its own oracle under a different schedule. Sampling, not proof.",
+   text="The property this technique is made for: one scenario (machine, content, frame-keyed input script) is executed under several host drivings - call slicing, Max mode with arbitrary scripted stopwatch readings, breakpoint stops and resumes, sound off, drain always/sometimes/never, five asset implementations (BufferCursor, chunking asset, GzipAsset, real FileAsset, 1-byte reads) - and the hash of all CPU state, RAM, paging, clock, both frame buffers (and PCM for draining drivings) must be identical at every compared frame boundary. The system is its own oracle under a different schedule. Sampling, not proof. Sound and fast-load settings may be changed through their setters at call boundaries; the AY registers read back at the end of every driving are compared; in loader-program scenarios the frame phase is calibrated so that the fast-load trap is raised by the instruction that completes a frame.",
    note="Inputs are applied at frame boundaries only; audio is compared only between drivings that drain every frame; repository snapshots, ROM boot and random programs are the workloads.",
    technique=TECH+"differential execution of one scenario under seeded host schedules, stopwatch scripts, breakpoints and asset chunkings",
    ref="5 (C16)"),
